@@ -19,6 +19,8 @@ pub const GRID_TEXTS: &[&str] = &[
     // reals
     "0.0", "-0.0", "0.5", "1.5", "-2.5", "1.0", "-1.0", "2.0", "3.0", "1e10", "1e-7", "16777216.0", "16777218.0",
     "3.4e38", "-3.4e38", "1e-45", "0.1", "100.0", "2147483648.0",
+    // infinities and NaN (no literal syntax: computed)
+    "(/ 1. 0)", "(- (/ 1. 0))", "(- (/ 1. 0) (/ 1. 0))",
 ];
 
 #[derive(Clone)]
